@@ -373,6 +373,53 @@ class NpShim:
         return _np.arange(*a, **k)
 
     # ---- elementwise
+    def sum(self, a, axis=None, dtype=None, **k):
+        """np.sum; an accumulator of a narrow integer type wraps.
+        `dtype=a.dtype` on an array read from a typed integer dataset
+        means that declared type (the object dtype of the stand-in array
+        is not what the real array has)"""
+        decl = getattr(a, 'decl', None)
+        if dtype is not None and _np.dtype(dtype) == object and \
+                decl is not None:
+            dtype = decl
+        if not (isinstance(a, _np.ndarray) and a.dtype == object):
+            if dtype is None:
+                return _np.sum(a, axis=axis, **k)
+            return _np.sum(a, axis=axis, dtype=dtype, **k)
+        base = a.view(_np.ndarray)
+        r = _np.sum(base, axis=axis, **k)
+        if dtype is None or _np.dtype(dtype).kind not in 'iu' \
+                or _np.dtype(dtype).itemsize >= 8:
+            return r.view(SArr) if isinstance(r, _np.ndarray) else r
+        dt = _np.dtype(dtype)
+        info = _np.iinfo(dt)
+        lo, span = int(info.min), 2 ** (8 * dt.itemsize)
+        n = int(a.size if axis is None else a.shape[axis])
+
+        def wrap(x):
+            if not isinstance(x, Sym):
+                return (int(x) - lo) % span + lo
+            # every term lies in the range of dt (it came out of a
+            # dataset of that type), so |sum - lo| < (n + 1) * span
+            isint = isinstance(x, SInt)
+            e = (x.e if isint else core._toreal(x.e)) - lo
+            one = z3.IntVal(1) if isint else z3.RealVal(1)
+            zero = z3.IntVal(0) if isint else z3.RealVal(0)
+            q = z3.Sum([z3.If(e >= span * j, one, zero)
+                        for j in range(1, n + 1)]
+                       + [z3.If(e < -span * j, -one, zero)
+                          for j in range(0, n)])
+            return core._wrap((x.e if isint else core._toreal(x.e))
+                              - span * q)
+        if isinstance(r, _np.ndarray):
+            out = _np.empty(r.shape, dtype=object)
+            for idx in _np.ndindex(r.shape):
+                out[idx] = wrap(r[idx])
+            out = out.view(SArr)
+            out.decl = dt
+            return out
+        return wrap(r)
+
     def where(self, *args):
         if len(args) == 3:
             c, a, b = args
